@@ -60,6 +60,11 @@ fn tasks() -> Vec<(&'static str, Vec<(&'static str, &'static str)>, Vec<&'static
         ("control: same name, different arity in input and output", vec![("a.lp", "p :- q. q(X) :- p, X = 1."), ("b.lp", "p :- q. q(1) :- p."), ("g.ug", "input: q/0. output: p/0. output: q/1.")], vec![], false),
         ("user-guide assumption mentions an output predicate", vec![("a.lp", "p :- q."), ("b.lp", "p :- q."), ("g.ug", "input: q/0. output: p/0. assumption: q or p.")], vec![], true),
         ("user-guide assumption mentions a private predicate", vec![("a.lp", "p :- t. t :- q."), ("b.lp", "p :- q."), ("g.ug", "input: q/0. output: p/0. assumption: t -> q.")], vec![], true),
+        ("user-guide assumption mentions a private predicate of the right program", vec![("a.lp", "p :- q."), ("b.lp", "p :- t. t :- q."), ("g.ug", "input: q/0. output: p/0. assumption: t -> q.")], vec![], true),
+        ("user-guide assumption mentions a private predicate of the right program, negated", vec![("a.lp", "p :- r."), ("b.lp", "t :- not r. p :- t."), ("g.ug", "input: r/0. output: p/0. assumption: not t and not r.")], vec![], true),
+        ("user-guide assumption mentions a private predicate of both programs under a quantifier", vec![("a.lp", "p(X) :- t(X). t(X) :- q(X)."), ("b.lp", "p(X) :- t(X). t(X) :- q(X), X > 0."), ("g.ug", "input: q/1. output: p/1. assumption: forall X (t(X) -> q(X)).")], vec![], true),
+        ("user-guide assumption mentions a private predicate of the program, program against specification", vec![("b.lp", "p :- t. t :- q."), ("s.spec", "spec: p <-> q."), ("g.ug", "input: q/0. output: p/0. assumption: t or not q.")], vec![], true),
+        ("user-guide assumption mentions a predicate that occurs nowhere else", vec![("a.lp", "p :- q."), ("b.lp", "p :- q."), ("g.ug", "input: q/0. output: p/0. assumption: z -> q.")], vec![], true),
         ("user-guide assumption mentions an input predicate's name at another arity", vec![("a.lp", "p :- q."), ("b.lp", "p :- q."), ("g.ug", "input: q/0. output: p/0. assumption: forall X (q(X) -> X = 1).")], vec![], true),
         ("user-guide assumption mentions an input predicate's name at another arity (unary input)", vec![("a.lp", "p(X) :- q(X)."), ("b.lp", "p(X) :- q(X)."), ("g.ug", "input: q/1. output: p/1. assumption: forall X Y (q(X, Y) -> X = Y).")], vec![], true),
         ("control: assumption over input predicates only", vec![("a.lp", "p(X) :- q(X)."), ("b.lp", "p(X) :- q(X)."), ("g.ug", "input: q/1. output: p/1. assumption: forall X (q(X) -> X = 1).")], vec![], false),
